@@ -44,6 +44,7 @@ TRun ==
      /\ Chk("returned_position_is_recorded_position_at_best_iteration",
             IF Ev.restore THEN Ev.position = Ev.hist_position[Ev.iteration_best + 1]
             ELSE Ev.position = Ev.hist_position[Ev.iteration + 1])
+     /\ Chk("position_history_starts_with_the_start_position", Ev.hist_position[1] = Ev.start_position)
      /\ Chk("history_lengths_or_nan_padding",
             /\ Ev.len_train = Ev.len_validation /\ Ev.len_position = Ev.len_train
             /\ IF Ev.prune THEN Ev.len_train = Ev.iteration + 1
